@@ -51,8 +51,10 @@ type LN struct {
 	mu        sync.Mutex
 	invoices  map[string]*lnInvoice // by hash
 	byReq     map[string]*lnInvoice
-	PayScript []PayAnswer // consumed by SendPayment / PayPartialAmount; default: succeeded
-	LookScript []PayAnswer // consumed by OutgoingPaymentStatus; default: error
+	PayScript  map[string][]PayAnswer // by payment hash; consumed by SendPayment / PayPartialAmount; default: succeeded, preimage "pre1"
+	LookScript map[string][]PayAnswer // by payment hash; consumed by OutgoingPaymentStatus; default: error
+	fireNow    string                 // payment hash whose next subscription delivers the settled invoice at once
+	created    []string               // payment hashes of the invoices created, in order
 	InvoiceStatusErr bool
 	CreateInvoiceErr bool
 	PayCalls  []PayCall
@@ -64,6 +66,7 @@ type LN struct {
 
 func NewLN(rng *rand.Rand) *LN {
 	return &LN{invoices: map[string]*lnInvoice{}, byReq: map[string]*lnInvoice{}, rng: rng,
+		PayScript: map[string][]PayAnswer{}, LookScript: map[string][]PayAnswer{},
 		FeeFn: func(a uint64) uint64 { return (a + 99) / 100 }}
 }
 
@@ -89,6 +92,7 @@ func (l *LN) CreateInvoice(amount uint64) (lightning.Invoice, error) {
 	inv := &lnInvoice{req: req, hash: hash, preimage: preimage, amount: amount, notify: make(chan struct{})}
 	l.invoices[hash] = inv
 	l.byReq[req] = inv
+	l.created = append(l.created, hash)
 	return lightning.Invoice{PaymentRequest: req, PaymentHash: hash, Amount: amount, Expiry: lightning.InvoiceExpiryTime}, nil
 }
 
@@ -141,13 +145,13 @@ func (l *LN) InvoiceStatus(hash string) (lightning.Invoice, error) {
 	return out, nil
 }
 
-func (l *LN) nextPay() PayAnswer {
-	if len(l.PayScript) == 0 {
-		return PayAnswer{Kind: 0, Preimage: "feedbeef"}
+func (l *LN) nextPay(hash string) PayAnswer {
+	sc := l.PayScript[hash]
+	if len(sc) == 0 {
+		return PayAnswer{Kind: 0, Preimage: "pre1"}
 	}
-	a := l.PayScript[0]
-	l.PayScript = l.PayScript[1:]
-	return a
+	l.PayScript[hash] = sc[1:]
+	return sc[0]
 }
 
 func answerToStatus(a PayAnswer) (lightning.PaymentStatus, error) {
@@ -174,7 +178,7 @@ func (l *LN) SendPayment(ctx context.Context, request string, maxFee uint64) (li
 		return lightning.PaymentStatus{}, err
 	}
 	l.PayCalls = append(l.PayCalls, PayCall{Request: request, Hash: bolt.PaymentHash, MaxFee: maxFee, AmountMsat: uint64(bolt.MSatoshi)})
-	return answerToStatus(l.nextPay())
+	return answerToStatus(l.nextPay(bolt.PaymentHash))
 }
 
 func (l *LN) PayPartialAmount(ctx context.Context, request string, amountMsat, maxFee uint64) (lightning.PaymentStatus, error) {
@@ -186,7 +190,7 @@ func (l *LN) PayPartialAmount(ctx context.Context, request string, amountMsat, m
 		return lightning.PaymentStatus{}, err
 	}
 	l.PayCalls = append(l.PayCalls, PayCall{Request: request, Hash: bolt.PaymentHash, MaxFee: maxFee, AmountMsat: amountMsat, Partial: true})
-	return answerToStatus(l.nextPay())
+	return answerToStatus(l.nextPay(bolt.PaymentHash))
 }
 
 func (l *LN) OutgoingPaymentStatus(ctx context.Context, hash string) (lightning.PaymentStatus, error) {
@@ -194,25 +198,32 @@ func (l *LN) OutgoingPaymentStatus(ctx context.Context, hash string) (lightning.
 	l.mu.Lock()
 	defer l.mu.Unlock()
 	l.LookCalls++
-	if len(l.LookScript) == 0 {
+	sc := l.LookScript[hash]
+	if len(sc) == 0 {
 		return lightning.PaymentStatus{}, errors.New("scripted: lookup error")
 	}
-	a := l.LookScript[0]
-	l.LookScript = l.LookScript[1:]
-	return answerToStatus(a)
+	l.LookScript[hash] = sc[1:]
+	return answerToStatus(sc[0])
 }
 
 func (l *LN) FeeReserve(amount uint64) uint64 { return l.FeeFn(amount) }
 
 type lnSub struct {
-	ctx context.Context
-	l   *LN
-	inv *lnInvoice
+	ctx  context.Context
+	l    *LN
+	inv  *lnInvoice
+	fire bool
 }
 
 func (s *lnSub) Recv() (lightning.Invoice, error) {
 	if s.inv == nil {
 		return lightning.Invoice{}, errors.New("invoice does not exist")
+	}
+	if s.fire {
+		s.l.mu.Lock()
+		defer s.l.mu.Unlock()
+		return lightning.Invoice{PaymentRequest: s.inv.req, PaymentHash: s.inv.hash, Settled: true,
+			Preimage: s.inv.preimage, Amount: s.inv.amount}, nil
 	}
 	select {
 	case <-s.ctx.Done():
@@ -228,7 +239,7 @@ func (s *lnSub) Recv() (lightning.Invoice, error) {
 func (l *LN) SubscribeInvoice(ctx context.Context, paymentHash string) (lightning.InvoiceSubscriptionClient, error) {
 	l.mu.Lock()
 	defer l.mu.Unlock()
-	return &lnSub{ctx: ctx, l: l, inv: l.invoices[paymentHash]}, nil
+	return &lnSub{ctx: ctx, l: l, inv: l.invoices[paymentHash], fire: l.fireNow != "" && l.fireNow == paymentHash}, nil
 }
 
 // ---------------- mint fixture ----------------
